@@ -110,3 +110,41 @@ func FindProduct(name string) *ProductSpec {
 	}
 	return nil
 }
+
+// exported constructors used by the scheduler scenarios
+func ProductTreeU16(name string, f FanSpec) *Universe { return pU16(name, f) }
+func ProductTreeU8(name string, f FanSpec) *Universe  { return pU8(name, f) }
+
+// SharedU64 is a numeric tree with several levels (readers scenario).
+func SharedU64() *Universe {
+	uops := intOps[uint64](func(k uint64) []byte { _, b := art.UnsignedBinaryKey[uint64]{}.Transform(k); return b })
+	var setup []uint64
+	for i := uint64(0); i < 6; i++ {
+		setup = append(setup, 0x0002000100010000+i*13, i<<40)
+	}
+	return NewNumUniverse("unsigned", "uint64", func() art.Tree[uint64, int] { return art.NewUnsignedBinaryTree[uint64, int]() },
+		NumSpec[uint64]{Name: "S-SHARED", Setup: setup, Free: []uint64{0x0002000100010000, 0x0002000100010000 + 13*5}, Probes: []uint64{0x0002000100010001}}, uops)
+}
+
+// SharedCompound is a compound tree with a 16-byte shared path.
+func SharedCompound() *Universe {
+	long := Schema{Fields: []FieldType{FU64, FU64}, Str: true}
+	mk := func(a, b uint64, s string) Tuple { return Tuple{N: []Num{{T: FU64, U: a}, {T: FU64, U: b}}, S: s} }
+	u := NewCompoundUniverse("S-SHARED", long, []Tuple{mk(7, 0x0101010101010100, "x"), mk(7, 0x0101010101010101, "x"), mk(8, 0, ""), mk(7, 0x0101010101010100, "")}, []Tuple{mk(6, 0, "")}, 1)
+	for _, k := range u.Free {
+		u.Setup = append(u.Setup, Op{Kind: OpInsert, K: k, V: 1})
+	}
+	return u
+}
+
+// GCUniverses: one universe per tree kind with pointer-rich values (collections inside operations).
+func GCUniverses() []*Universe {
+	var out []*Universe
+	for _, d := range c18Kinds(vsRich, "quick") {
+		out = append(out, d.Build())
+	}
+	for _, d := range c18Kinds(vsString, "quick")[:2] {
+		out = append(out, d.Build())
+	}
+	return out
+}
